@@ -185,6 +185,10 @@ def _convert_ifexp(node: ast.IfExp) -> libsbml.ASTNode:
 
 
 def _unary_node(name: str, typ: int, node: ast.Call) -> libsbml.ASTNode:
+    # math.log(x, base) or remainder(x, y) would otherwise lose all but the first argument
+    if len(node.args) != 1 or node.keywords:
+        msg = f"Function call '{name}' with {len(node.args) + len(node.keywords)} arguments"
+        raise NotImplementedError(msg)
     sbml_node = libsbml.ASTNode(typ)
     # log and root carry their base / degree as first child
     if name in ("log10", "sqrt"):
